@@ -131,11 +131,16 @@ def commitKey (ks : KeyState) (l : Lock) (cv : Nat) : KeyState × KErr :=
       else (ks, .ok)
     | none => ({ ks with lock := none, writes := setWrite ks.writes ⟨cv, l.ts, l.kind⟩ }, .ok)
 
+/-- `rollbackKey` removes the lock only when it belongs to the transaction being rolled back -/
+def dropLock (start : Nat) : Option Lock → Option Lock
+  | some l => if l.ts = start then none else some l
+  | none => none
+
 /-- `rollbackKey` -/
 def rollbackKey (ks : KeyState) (start : Nat) : KeyState :=
   match findByStart ks.writes start with
   | some _ => ks
-  | none => { lock := none, writes := setWrite ks.writes ⟨start, start, .rollback⟩,
+  | none => { lock := dropLock start ks.lock, writes := setWrite ks.writes ⟨start, start, .rollback⟩,
               data := setData ks.data start none }
 
 /-- one iteration of the loop of `Commit` -/
